@@ -57,7 +57,7 @@ func (P) Facts() []core.Fact {
 // blocks : b1,b2,…  with  b = id:parent:spends[:x]   (spends = o1.o2… | -)
 //          abstract outpoint  o = 8*blockid + txindex  (tx 0 = coinbase; tx j>0
 //          spends one outpoint and creates one output)
-// ops    : d<id> (ProcessBlock) | f (FlushUtxoCache Required) | i (IfNeeded)
+// ops    : d<id> (ProcessBlock) | h<id> (ProcessBlockHeader) | f (FlushUtxoCache Required) | i (IfNeeded) | p (Periodic)
 // k      : crash image after the k-th committed db.Update (1-based, counted
 //          from the creation of the database).
 
@@ -667,6 +667,11 @@ func runLife(root string, startDir string, w *world, c cfg, ops []string) *life 
 			l.res = append(l.res, errClass(ch.FlushUtxoCache(blockchain.FlushIfNeeded)))
 		case op == "p":
 			l.res = append(l.res, errClass(ch.FlushUtxoCache(blockchain.FlushPeriodic)))
+		case strings.HasPrefix(op, "h"):
+			id, _ := strconv.Atoi(op[1:])
+			hdr := w.byID[id].MsgBlock().Header
+			_, err := ch.ProcessBlockHeader(&hdr, blockchain.BFNone, false)
+			l.res = append(l.res, errClass(err))
 		case strings.HasPrefix(op, "d"):
 			id, _ := strconv.Atoi(op[1:])
 			start := cdb.n
@@ -1037,7 +1042,7 @@ func parseOps(s string, descs []blkDesc) ([]string, bool) {
 	for _, o := range strings.Split(s, ",") {
 		switch {
 		case o == "f" || o == "i" || o == "p":
-		case strings.HasPrefix(o, "d"):
+		case strings.HasPrefix(o, "d") || strings.HasPrefix(o, "h"):
 			id, err := strconv.Atoi(o[1:])
 			if err != nil || !known[id] {
 				return nil, false
@@ -1164,7 +1169,17 @@ func (g *gw) add(parent int, kind int, maxSpends int) int {
 	return id
 }
 
-func (g *gw) deliver(id int) { g.ops = append(g.ops, "d"+strconv.Itoa(id)) }
+func (g *gw) deliver(id int) {
+	// headers-first now and then: the header of the block (and sometimes of a
+	// block that is delivered later or never) before the block itself
+	if g.r.Chance(1, 4) {
+		g.ops = append(g.ops, "h"+strconv.Itoa(id))
+	}
+	g.ops = append(g.ops, "d"+strconv.Itoa(id))
+	if g.r.Chance(1, 12) {
+		g.ops = append(g.ops, "h"+strconv.Itoa(1+g.r.Intn(g.nextID-1)))
+	}
+}
 
 func (g *gw) maybeFlush() {
 	switch g.r.Intn(10) {
